@@ -13,6 +13,13 @@ EXPECTED_FACTS = {
     "c05_fn_Storer.newRunId": "8cd70f4f6865",
     "c05_fn_changeReplId": "04016ea37ece",
     "c05_fn_dataSet.Right": "9c1a50ba8cc6",
+    "c05_package_state": [
+        "pkg/store/aof_writer.go: fixHeader read-only",
+        "pkg/store/aof_writer.go: writeDataCounter read-only",
+        "pkg/store/aof_reader.go: errOrphaned read-only",
+        "pkg/store/rdb_writer.go: rdbWriteDataCounter read-only",
+        "config: Channel.VerifyCrc"
+    ],
     "c05_writer_offset_flow": [
         "syncMeta: locSp, err = ri.channel.StartPoint(inputIds)",
         "syncMeta: clearLocal = true",
@@ -199,6 +206,19 @@ PROP = {
             "the count behind the snapshot ghost. "
             "Session 5: the moves of the bounded-progress theorems (Props/C05Reach.lean: PMove.follow / followGc / other gc, append, other readers' ops) are exactly driven operations (dread, dreadgc, dgc, "
             "daofa, drdba, dopen / dread / dclose of other readers); THOROUGH tier: C05chan (the real-goroutine harness) runs under the Go race detector, reports become data-race violations (repository code on both sides) or infrastructure faults. "
+            "DIMENSION AUDIT (session 5, last round) - every option / degenerate input below is FORCED by the generators and counted in the evidence (cfg_* / probe_* / op_* counters): "
+            "channel.verifyCrc true AND false x (first open of a stream / of a snapshot / on the live segment | follow into a closed segment | follow into the LIVE segment | open after a restart) in the "
+            "disk harness (cfg_verifyCrc_<v>_*), and - process-global configuration read by StoreChannel.NewReader - on the real-goroutine path of C05chan (verifying stream-only follow cases forced every third case, "
+            "source-error cases); LogSize AT the 16-byte header size (every append rotates) and one byte above (cases 3 / 7 of every 10), memory LogSize 1 / 2 / 8; MaxSize BELOW one segment (1, LogSize/2, "
+            "LogSize-15: every fifth disk case), memory MaxSize == LogSize (the configuration's clamp boundary) and two segments, MaxSize -1 (the configuration's 'unlimited'; the model gets 0) beside 0; "
+            "collector passes with a snapshot reader open / a snapshot writer live (counted); the stream writer replaced at the SAME offset on an EMPTY live segment with a reader opened at that offset in "
+            "between (forced composite op); writers and snapshots of DIFFERENT run ids at EQUAL left offsets (a sticky offset per case: file names equal across directories); the offsets 0, 1 and "
+            "MaxInt64-1 probed after EVERY operation through the model, -1 by a monitor (valid only through an offered snapshot); one-byte reads and snapshots of one / two bytes; the source ending by EOF vs "
+            "by a non-EOF error and a source whose Read returns (0, nil) (C05chan; both ingest loops guard n > 0, so a zero-length APPEND cannot reach AofRotater.write / appendAof from the real writers - "
+            "not drawn as an operation; zero-byte READS are not drawn either: bufio never passes an empty buffer). Source fact c05_package_state: the package-level variables of the anchor files "
+            "(fixHeader, errOrphaned, two metric vectors: none assigned after init) and the process-global configuration they read (config.GetSyncerConfig().Channel.VerifyCrc). NOT drawn, judged outside the "
+            "input space: a writer at offset 0 (PosOps, see assumptions) or near MaxInt64 (left + size overflows; no Redis history gets there), stray / foreign files inside a run-id directory and "
+            "header-only segment files at a restart (unclean stops are C08's reopen), a zero-size snapshot (refused by the input since 32a41ef). "
             "distinct_nontrivial = cases with rotation and a reader that crossed a segment boundary",
     "trusted": [
         "testing/synctest quiescence (memory harness): after synctest.Wait every goroutine of the channel is durably blocked",
